@@ -72,13 +72,19 @@ def run(ctx):
             "HashMap + insertion-ordered name vector of SchemaBuilder modelled as an association list with first-insertion-wins",
             "the harness's own construction of the introspection result from the schema model (independent of nitrogql; the "
             "Coq function introspect is checked equal to it on every case) and its dump of graphql_type_system::Schema through the public API",
-            "verdicts of check_operation_document and the writer operations of SchemaTypePrinter are taken from the real code "
-            "(the checker and printer are not re-modelled here: C03/C04/C10 do that); aliases are read off the operation list in Coq",
+            "coq/C03/Model.v (builder-C03's model of the operation checker, imported read-only): check_respects_equiv is a theorem "
+            "about that model; each run checks that it reproduces the real checker's verdicts on the SDL document and on the "
+            "reification of the JSON route's Schema",
+            "the writer operations of SchemaTypePrinter are taken from the real code (the printer is not re-modelled here: C10 does "
+            "that); aliases are read off the operation list in Coq",
         ],
         assumptions=[
             "C15_routes_agree: model_ok M = user directives distinct from one another and from the built-ins; without a schema "
             "definition the roots are the types named Query/Mutation/Subscription; root names are ordinary names; a schema "
             "description comes with a schema definition; compared on the names of vis_of M (not an introspection type, not a built-in scalar the result does not list); "
             "modulo positions, default-value text and declaration order",
+            "C15_check_respects_equiv: additionally sim_guard_b (definitions of compared names mention compared names only; types "
+            "outside the compared names implement no interface; String is listed) and opdoc_ok on the operation document (no "
+            "unlisted built-in scalar, no introspection type)",
         ],
     )
